@@ -46,6 +46,7 @@ class H2Script:
         self.ping = cfg.get("ping", 0)
         self.wu = list(cfg.get("wu", []))          # [(target "conn"|"stream", increment)]
         self.wu_budget = cfg.get("wu_budget", 0)
+        self.early_hdr = cfg.get("early_hdr", False)
         self.half = {}
 
     def _mc_state(self):
@@ -60,9 +61,12 @@ class H2Script:
                 s = conn.streams[sid]
                 tag = f"{ci}.{sid}"
                 refused = conn.goaway_sent is not None and sid > conn.goaway_sent[0]
+                if self.early_hdr and s.headers is not None and not s.end_stream and not s.responded and not s.closed and not refused:
+                    # early response: HEADERS before the request body is complete
+                    out.append((f"ehdr{tag}", lambda conn=conn, s=s: conn.send_headers(s.id, [(b":status", b"200"), (b"x-echo", s.token or b"?")])))
                 if s.end_stream and not s.responded and not s.closed and not refused:
                     out.append((f"hdr{tag}", lambda conn=conn, s=s: conn.send_headers(s.id, [(b":status", b"200"), (b"x-echo", s.token or b"?")])))
-                elif s.responded and not s.resp_sent_end:
+                elif s.responded and not s.resp_sent_end and s.end_stream:
                     body = conn.server.body_for(s.token)
                     if self.frag == 2 and (ci, sid) not in self.half:
                         def first(conn=conn, s=s, body=body, ci=ci, sid=sid):
@@ -139,6 +143,8 @@ class ConcHarness:
         if self.fault_set == "one":
             kinds = {"connect": ["ConnectError"], "start_tls": ["ConnectError"], "read": ["ReadError"], "write": ["WriteError"]}
         results: dict = {}
+        uploads: dict = {}
+        self._uploads = uploads
         results_warm: dict = {}
         self._results_warm = results_warm
         times: dict = {}
@@ -220,6 +226,12 @@ class ConcHarness:
                         return (r.status, r.content)
                     if kind == "post":
                         r = await pool.request("POST", url, content=b"data-" + tok.encode(), extensions=dict(ext))
+                        return (r.status, r.content)
+                    if kind.startswith("up"):
+                        n = int(kind[2:])
+                        payload = (tok.encode() * (n // len(tok) + 1))[:n]
+                        uploads[tok] = payload
+                        r = await pool.request("POST", url, content=payload, extensions=dict(ext))
                         return (r.status, r.content)
                     if kind == "hold":
                         gate = w.make_release(name)
@@ -386,10 +398,37 @@ class ConcHarness:
             kind, info = w.deadlock
             # root-cause fact for the known SETTINGS wedge: a caller is blocked inside _receive_remote_settings_change
             base["settings_lowered"] = isinstance(info, list) and any("_receive_remote_settings_change" in b[1] for b in info)
+            # flow control: an upload blocked although, by the peer's books, its stream and connection windows are open
+            starved_ok = False
+            for hc in topo.all_h2_conns():
+                for s_ in hc.blocked_uploads():
+                    if s_.recv_window > 0 and hc.conn_recv_window > 0:
+                        base["reads_instead_of_sending"] = isinstance(info, list) and any(
+                            "_wait_for_outgoing_flow" in b[1] and b[1].endswith("_read_incoming_data") for b in info)
+                        viol("C13", "upload-stalled", f"upload on stream {s_.id} is stalled ({len(s_.body)} bytes sent) although the stream window is {s_.recv_window} and the connection window {hc.conn_recv_window}; "
+                             f"blocked: {info}")
+                    else:
+                        starved_ok = True
+            if kind == "livelock":
+                for hc in topo.all_h2_conns():
+                    if hc.blocked_uploads():
+                        viol("C13", "upload-livelock", f"an upload never finishes and the client never blocks: the step horizon was exceeded with {len(hc.blocked_uploads())} upload(s) unfinished; "
+                             f"windows by the peer's books: {[(x.id, x.recv_window) for x in hc.blocked_uploads()]}, connection {hc.conn_recv_window}")
+            if kind == "deadlock" and starved_ok and not any(v.oracle.startswith("C13.") for v in ex.violations):
+                # the peer withheld credit: blocking is the correct behaviour, not a deadlock of the client
+                ex.outcome = f"blocked-by-peer-window:{sorted((k, (v[0] if v else None)) for k, v in results.items())}"
+                return
             viol("C07", kind, f"callers blocked forever: {info}; pool={pool!r} {pool.connections}",
                  blocked_at=[b[1] for b in info] if isinstance(info, list) else None)
             ex.outcome = f"{kind}:{sorted((k, (v[0] if v else None)) for k, v in results.items())}"
             return
+        for hc in topo.all_h2_conns():
+            for s_ in hc.streams.values():
+                tk = (s_.token or b"").decode()
+                if tk in self._uploads and s_.end_stream and bytes(s_.body) != self._uploads[tk]:
+                    viol("C13", "upload-body", f"stream {s_.id} (token {tk}) delivered {len(s_.body)} bytes {bytes(s_.body)[:40]!r}, the caller sent {len(self._uploads[tk])} bytes")
+                if tk in self._uploads and s_.end_count > 1:
+                    viol("C13", "end-stream-twice", f"stream {s_.id}: END_STREAM seen {s_.end_count} times")
         for c in topo.all_h1_conns():
             if c.reuse_violations:
                 viol("C01", "reuse", f"{c.reuse_violations[:2]}")
@@ -562,6 +601,37 @@ def scenarios(pid, tier):
                 out.append(S(ct, [W, "req:a", "req:a", "req:a"], max_connections=1, h2script={"frag": 2}, early=False))
                 out.append(S(ct, [W, "req:a", "req:a", "req:a", "req:a"], max_connections=1, h2cfg={"max_streams": 3}, h2script={"settings": [1], "rst": 1}, early=False))
                 out.append(S(ct, [W, "req:a", "req:a"], max_connections=1, h2script={"frag": 2}, early=True))
+    if pid == "C02":
+        # HTTP/2: DATA of one stream arriving in reads made on behalf of another (multiplexed responses in two
+        # fragments each; a download's DATA arriving while an upload waits for flow-control credit)
+        for ct in (["h2pk"] if quick else ["h2pk", "h2alpn"]):
+            out.append(S(ct, ["req:a:w", "req:a", "req:a"], max_connections=1, h2script={"frag": 2}, early=False))
+            out.append(S(ct, ["req:a:w", "up9:a", "req:a"], max_connections=1, h2cfg={"window_policy": "manual", "initial_window": 4},
+                         h2script={"wu": [["stream", 70000]], "wu_budget": 1, "frag": 2}, early=False))
+    if pid == "C13":
+        W = "req:a:w"
+        manual = {"window_policy": "manual"}
+        for ct in (["h2pk"] if quick else ["h2pk", "h2alpn"]):
+            # one upload against a tiny stream window, WINDOW_UPDATE increments chosen by the explorer
+            for iw, size in ((1, 3), (7, 17), (7, 8)):
+                out.append(S(ct, [W, f"up{size}:a"], max_connections=1, h2cfg=dict(manual, initial_window=iw),
+                             h2script={"wu": [["stream", 1], ["stream", 5], ["stream", 70000]], "wu_budget": 4}, early=False))
+            # two uploads share the connection; stream-only / connection-only credit in every order
+            out.append(S(ct, [W, "up9:a", "up9:a"], max_connections=1, h2cfg=dict(manual, initial_window=4),
+                         h2script={"wu": [["stream", 70000]], "wu_budget": 2}, early=False))
+            out.append(S(ct, [W, "up9:a", "up9:a"], max_connections=1, h2cfg=dict(manual, initial_window=4),
+                         h2script={"wu": [["stream", 3], ["stream", 70000]], "wu_budget": 3}, early=False))
+            # early response HEADERS while the upload is still blocked, credit arriving late
+            out.append(S(ct, [W, "up9:a"], max_connections=1, h2cfg=dict(manual, initial_window=4),
+                         h2script={"wu": [["stream", 70000]], "wu_budget": 2, "early_hdr": True}, early=False, horizon=300))
+            # a download's DATA arriving while an upload waits for credit
+            out.append(S(ct, [W, "up9:a", "req:a"], max_connections=1, h2cfg=dict(manual, initial_window=4),
+                         h2script={"wu": [["stream", 70000]], "wu_budget": 1, "frag": 2}, early=False))
+            if not quick:
+                out.append(S(ct, [W, "up9:a", "up9:a", "req:a"], max_connections=1, h2cfg=dict(manual, initial_window=4),
+                             h2script={"wu": [["stream", 3], ["stream", 70000]], "wu_budget": 4, "frag": 2}, early=False))
+                out.append(S(ct, [W, "up17:a"], max_connections=1, h2cfg=dict(manual, initial_window=7),
+                             h2script={"wu": [["stream", 1], ["stream", 5], ["stream", 70000]], "wu_budget": 5, "settings": []}, early=True))
     if pid == "C15":
         # peer-initiated HTTP/2 events against two streams (GOAWAY contradicting an answered stream, RST_STREAM)
         out.append(S("h2pk", ["req:a", "req:a"], max_connections=2, h2script={"goaway": [1, 3], "rst": 1}, early=False))
